@@ -56,6 +56,26 @@ BOUNDS = {"quick": "edit distance <= 2 over the full alphabet (default configura
           "thorough": "edit distance <= 2 over the full alphabet in all 8 configurations; distance 3 over the reduced alphabet in the default configuration"}
 
 
+C15_TOKSETS = {"full": TOKENS, "small": SMALL, "tiny": TINY, "shell": c14.SMALL_TOKENS + [EXTRA[0], EXTRA[4]]}
+POS_BASES = {k: v[3] for k, v in POSITIONS.items()}
+_BALLS = {}
+
+
+def lists_for(pos, tokset, dist, part):
+    k = (pos, tokset, dist, part)
+    if k not in _BALLS:
+        base = POS_BASES[pos]
+        if part == "d1":
+            _BALLS[k] = c14.ball(base, TOKENS, 1)
+        elif part == "rest":
+            d1 = set(c14.ball(base, TOKENS, 1))
+            _BALLS[k] = [l for l in c14.ball(base, C15_TOKSETS[tokset], dist) if l not in d1]
+        else:
+            inner = set(c14.ball(base, C15_TOKSETS[tokset], dist - 1))
+            _BALLS[k] = [l for l in c14.ball(base, C15_TOKSETS[tokset], dist) if l not in inner]
+    return _BALLS[k]
+
+
 def frames_for(pos, block):
     if pos in ("request", "response", "info"):
         return [wire.headers(1, block)]
@@ -147,11 +167,11 @@ def judge(pos, cfg, lst, form, viols, outcomes):
 
 
 def job(job):
-    pos, cfg, lists, forms = job["pos"], tuple(job["cfg"]), job["lists"], job["forms"]
+    pos, cfg, forms = job["pos"], tuple(job["cfg"]), job["forms"]
+    lists = lists_for(pos, job["tokset"], job["dist"], job["part"])[job["shard"]::job["nshards"]]
     viols, outcomes = {}, {}
     n = nt = 0
     for lst in lists:
-        lst = tuple((bytes.fromhex(a), bytes.fromhex(b)) for a, b in lst)
         for form in forms:
             n += 1
             if judge(pos, cfg, lst, form, viols, outcomes):
@@ -159,7 +179,7 @@ def job(job):
     return {"evaluations": n, "outcomes": {pos + ":" + k: v for k, v in outcomes.items()}, "nontrivial": nt,
             "violations": list(viols.values()),
             "samples": [{"position": pos, "cfg": list(cfg),
-                         "list": [[bytes.fromhex(a).decode("latin-1"), bytes.fromhex(b).decode("latin-1")] for a, b in lists[len(lists) // 3]]}] if lists else []}
+                         "list": [[a.decode("latin-1"), b.decode("latin-1")] for a, b in lists[len(lists) // 3]]}] if lists else []}
 
 
 def replay(rec):
@@ -178,25 +198,26 @@ def run(ctx):
     quick = ctx.tier == "quick"
     jobs = []
     total = 0
-    for pos, (client, state, btype, base) in POSITIONS.items():
+    for pos in POSITIONS:
         for cfg in CFGS:
             default = cfg == (True, True, None)
-            toks = TOKENS if (default or not quick) else TINY
-            d2 = c14.ball(base, toks, 2)
-            d1 = set(c14.ball(base, TOKENS, 1))
-            plain = [l for l in d2 if l not in d1]
-            d1 = sorted(d1)
-            total += len(d2)
-            step = 1500
-            for i in range(0, len(plain), step):
-                jobs.append({"pos": pos, "cfg": list(cfg), "lists": c14._hexlists(plain[i:i + step]), "forms": ["ni"]})
-            jobs.append({"pos": pos, "cfg": list(cfg), "lists": c14._hexlists(d1), "forms": ["ni", "indexed"]})
+            tokset = "full" if (default or not quick) else "tiny"
+            nrest = len(lists_for(pos, tokset, 2, "rest"))
+            nd1 = len(lists_for(pos, "full", 1, "d1"))
+            total += nrest + nd1
+            ns = max(1, nrest // 1500)
+            for i in range(ns):
+                jobs.append({"pos": pos, "cfg": list(cfg), "tokset": tokset, "dist": 2, "part": "rest", "shard": i, "nshards": ns,
+                             "forms": ["ni"]})
+            jobs.append({"pos": pos, "cfg": list(cfg), "tokset": "full", "dist": 1, "part": "d1", "shard": 0, "nshards": 1,
+                         "forms": ["ni", "indexed"]})
         if not quick:
-            d3 = c14.ball(base, c14.SMALL_TOKENS + [EXTRA[0], EXTRA[4]], 3)
-            d2s = set(c14.ball(base, c14.SMALL_TOKENS + [EXTRA[0], EXTRA[4]], 2))
-            extra = [l for l in d3 if l not in d2s]
-            total += len(extra)
-            for i in range(0, len(extra), 3000):
-                jobs.append({"pos": pos, "cfg": [True, True, None], "lists": c14._hexlists(extra[i:i + 3000]), "forms": ["ni"]})
+            n3 = len(lists_for(pos, "shell", 3, "shell3"))
+            total += n3
+            ns = max(1, n3 // 3000)
+            for i in range(ns):
+                jobs.append({"pos": pos, "cfg": [True, True, None], "tokset": "shell", "dist": 3, "part": "shell3", "shard": i,
+                             "nshards": ns, "forms": ["ni"]})
+    _BALLS.clear()
     ctx.fanout("c15-%s" % ctx.tier, jobs, "job", domain="%d distinct (position, configuration, list) cases" % total)
     ctx.fanouts[-1]["states"] = len(POSITIONS) * len(CFGS)
